@@ -1326,6 +1326,9 @@ func (m *RedisMessage) AsFtSearch() (total int64, docs []FtSearchDoc, err error)
 		return 0, nil, err
 	}
 	if m.IsMap() {
+		if len(m.values())%2 != 0 {
+			return 0, nil, fmt.Errorf("%w: redis message type map is not a FT.SEARCH response: its length is not even", errParse)
+		}
 		for i := 0; i < len(m.values()); i += 2 {
 			switch m.values()[i].string() {
 			case "total_results":
@@ -1334,6 +1337,9 @@ func (m *RedisMessage) AsFtSearch() (total int64, docs []FtSearchDoc, err error)
 				records := m.values()[i+1].values()
 				docs = make([]FtSearchDoc, len(records))
 				for d, record := range records {
+					if len(record.values())%2 != 0 {
+						return 0, nil, fmt.Errorf("%w: FT.SEARCH result record length is not even", errParse)
+					}
 					for j := 0; j < len(record.values()); j += 2 {
 						switch record.values()[j].string() {
 						case "id":
@@ -1377,11 +1383,15 @@ func (m *RedisMessage) AsFtSearch() (total int64, docs []FtSearchDoc, err error)
 		for i := 1; i < len(m.values()); i++ {
 			doc := FtSearchDoc{Key: m.values()[i].string()}
 			if wscore {
-				i++
+				if i++; i >= len(m.values()) {
+					return 0, nil, fmt.Errorf("%w: FT.SEARCH response ends before the score of the last document", errParse)
+				}
 				doc.Score, _ = strconv.ParseFloat(m.values()[i].string(), 64)
 			}
 			if wattrs {
-				i++
+				if i++; i >= len(m.values()) {
+					return 0, nil, fmt.Errorf("%w: FT.SEARCH response ends before the attributes of the last document", errParse)
+				}
 				doc.Doc, _ = m.values()[i].AsStrMap()
 			}
 			docs = append(docs, doc)
@@ -1397,6 +1407,9 @@ func (m *RedisMessage) AsFtAggregate() (total int64, docs []map[string]string, e
 		return 0, nil, err
 	}
 	if m.IsMap() {
+		if len(m.values())%2 != 0 {
+			return 0, nil, fmt.Errorf("%w: redis message type map is not a FT.AGGREGATE response: its length is not even", errParse)
+		}
 		for i := 0; i < len(m.values()); i += 2 {
 			switch m.values()[i].string() {
 			case "total_results":
@@ -1405,6 +1418,9 @@ func (m *RedisMessage) AsFtAggregate() (total int64, docs []map[string]string, e
 				records := m.values()[i+1].values()
 				docs = make([]map[string]string, len(records))
 				for d, record := range records {
+					if len(record.values())%2 != 0 {
+						return 0, nil, fmt.Errorf("%w: FT.AGGREGATE result record length is not even", errParse)
+					}
 					for j := 0; j < len(record.values()); j += 2 {
 						switch record.values()[j].string() {
 						case "extra_attributes":
